@@ -1,3 +1,5 @@
 import NiflyVerif.Util.IndexOps
 import NiflyVerif.Util.IndexLemmas
 import NiflyVerif.Props.C18
+import NiflyVerif.Graph.Header
+import NiflyVerif.Props.C06
